@@ -16,7 +16,8 @@ from .. import common as C
 
 SUMMARY_FIELDS = ["id", "prop", "desc", "corner", "expect", "cls", "direct", "why",
                   "f1", "f2", "f3", "r1", "r2", "r3", "ckey", "chash", "csalt", "session",
-                  "skey", "skeyid", "ssalt", "shash1", "encseen", "encopened", "encpkt", "fault", "errtext", "rejected"]
+                  "skey", "skeyid", "ssalt", "shash1", "encseen", "encopened", "encpkt", "fault", "errtext", "rejected",
+                  "postreq", "after_encrypted", "postplain", "hang_retried"]
 
 CLASS_OF_VERDICT = {"success": "ok", "failed": "err", "panicked": "panic", "stalled": "hang"}
 
@@ -35,8 +36,12 @@ TRUSTED = [
     "MTProto 1.0 envelope); it is compared byte for byte with the Coq server model (Handshake/Server.v) on every conformant case",
     "the client's random draws are injected by assigning crypto/rand.Reader (restored after each handshake); EncryptMessageWithTempKeys takes its padding "
     "from math/rand: the server recovers those bytes and they are passed to the model",
-    "tl.DecodeUnknownObject on replies whose constructor is none of the six key-exchange answers is an oracle (foreign_ok); malformed bodies of key-exchange "
-    "constructors and rpc_error replies are outside the model (read-loop failures are property C16's subject)",
+    "a reply whose constructor is none of the six key-exchange answers, or whose body does not decode, ends the exchange with an error in the model "
+    "(either the wrapper refuses the type or the read loop hands the decoding error to the waiting request); rpc_error replies are outside the model",
+    "after every exchange the harness makes one ordinary request (ping) on the same client: after success the server must be able to read it and its "
+    "rpc_result{pong} answer must come back; after an abandoned exchange no encrypted frame may appear and the verif export must show encrypted = false, "
+    "no auth key, salt 0",
+    "a 'hang' verdict (20 s watchdog) is only reported after the same case hung again when re-run on its own with a 120 s limit",
     "SaveSession is assumed to succeed (file system errors are outside the model)",
 ]
 
@@ -127,7 +132,8 @@ def compare(prop, r, m):
         return ["no model output"]
     v = m.get("verdict", "?")
     if v == "oracle-missing":
-        return ["the model needs a library result the implementation never computed: " + m.get("what", "?")]
+        raise C.BuildError("harness trouble (no verdict): case %s: the model asked for a library result that is not in the oracle table: %s"
+                           % (r["id"], m.get("what", "?")))
     if CLASS_OF_VERDICT.get(v) != r["cls"]:
         diffs.append("outcome: model %s, implementation %s" % (v, r["cls"]))
     for k in ("f1", "f2", "f3"):
@@ -230,6 +236,7 @@ def run(ctx, prop, props_file, rule, distribution_note):
         {"evaluations": evals, "distinct_nontrivial": len(nontrivial), "rule": rule, "samples": samples,
          "input_distribution": dict(stats, note=distribution_note), "disagreements": disagreements,
          "direct_oracle_failures": direct_fail, "coqchk": coqchk or "thorough tier only",
+         "hang_verdicts_rerun_alone": stats.get("hang_verdicts_rerun_alone", 0), "hang_verdicts_confirmed": stats.get("hang_verdicts_confirmed", 0),
          "projection": "outcome class (returned nil / returned an error / panicked / never returned or process died); every plain message byte for byte; "
                        "auth key, key id, salt on both sides; contents of the session store (key, hash, salt, address matches); the first encrypted packet "
                        "byte for byte (msg_id, session id, seq_no taken from the server's reading); for conformant cases the three replies and the secrets of "
